@@ -65,7 +65,12 @@ def build_inputs(d, backend, settings, kebab, with_cb=False, attr_style="quoted"
     os.makedirs(d, exist_ok=True)
     cfgp = os.path.join(d, "config.toml")
     open(cfgp, "w").write(cfg)
-    src = "".join(a + "\n" for a in attrs) + ("struct VfCfg;\n" if attrs else "") + BRIDGE % {"cb": CB_METHOD if with_cb else ""}
+    # the attribute may sit on any top-level item of the entry file and may carry several pairs (book/src/config.md)
+    host = ["struct", "mod", "impl", "joined"][sum(map(ord, os.path.basename(d))) % 4] if attrs else "struct"
+    if host == "joined" and len(attrs) > 1:
+        attrs = ["#[diplomat::config(%s)]" % ", ".join(a[len("#[diplomat::config("):-2] for a in attrs)]
+    tail = {"struct": "struct VfCfg;\n", "joined": "struct VfCfg;\n", "mod": "mod vf_cfg_host {}\n", "impl": "impl VfCfg {}\nstruct VfCfg;\n"}[host] if attrs else ""
+    src = "".join(a + "\n" for a in attrs) + tail + BRIDGE % {"cb": CB_METHOD if with_cb else ""}
     entry = os.path.join(d, "lib.rs")
     open(entry, "w").write("#![allow(warnings)]\n" + src)
     return entry, cfgp, cli
